@@ -143,6 +143,12 @@ def judge(ctx, cspec, aspec, tag):
         so2 = cases.build_alignment(cspec, asp, continuum=None, soft=True, slot_order=order)
         results["Alignment.check(continuum)"] = (outcome(lambda: al2.check(continuum)), exp_part)
         results["SoftAlignment.check(continuum)"] = (outcome(lambda: so2.check(continuum)), exp_cover)
+        # bound at construction to ANOTHER continuum, checked against this one explicitly
+        other = cases.build_continuum({"ann": {a: [[900.0, 901.0, "other"]] for a in names}})
+        al3 = cases.build_alignment(cspec, asp, continuum=other, slot_order=order)
+        so3 = cases.build_alignment(cspec, asp, continuum=other, soft=True, slot_order=order)
+        results["Alignment(bound elsewhere).check(continuum)"] = (outcome(lambda: al3.check(continuum)), exp_part)
+        results["SoftAlignment(bound elsewhere).check(continuum)"] = (outcome(lambda: so3.check(continuum)), exp_cover)
         results["Alignment(check_validity=True)"] = (
             outcome(lambda: cases.build_alignment(cspec, asp, continuum=continuum, slot_order=order, check=True)), exp_part)
         results["SoftAlignment(check_validity=True)"] = (
@@ -189,6 +195,16 @@ def run(ctx):
         ctx.begin_case(case, nontrivial=cases.spec_num_units(cspec) >= 2)
         ctx.observe("mutations", "+".join(muts) or "valid")
         check_case(ctx, case)
+    # continua in which annotators are declared but nobody has a unit (a falsy Continuum): the only candidates are
+    # all-empty unitary alignments, which must be accepted - also when the continuum is passed to check() explicitly
+    for n in (2, 3):
+        for copies in (1, 2):
+            cspec = {"ann": {a: [] for a in cases.ANNOTATOR_NAMES[:n]}, "family": "no-units"}
+            asp = [{a: None for a in cases.ANNOTATOR_NAMES[:n]} for _ in range(copies)]
+            case = {"continuum": cspec, "alignment": asp, "mutations": ["no-units"]}
+            ctx.begin_case(case, nontrivial=False)
+            ctx.observe("mutations", "continuum-without-units")
+            check_case(ctx, case)
     if ctx.tier == "thorough":
         # every partition of tiny continua x every single mutation (each mutation kind, a few random placements)
         tiny = [
